@@ -2,47 +2,57 @@
 # /verif/bin/selftest.sh [filter]: must-fail corpus.  Every entry is a change to a scratch copy of /repo that breaks a
 # property; the property's quick check must exit 1 on it.  Entries: reverts of the fix: commits (selftest/reverts.tsv)
 # and the seeded changes kept under /verif/seeded/<name>/ (patch.diff + meta.json with "caught_by").
-# Also proves that a false lemma is rejected.  Exit 0 when every entry is caught.
+# Also proves that a false lemma is rejected.  Exit 0 when every entry is caught.  JOBS=n runs n entries at a time
+# (default 1; the checks are parallel themselves, more than 3 mostly adds timeouts).
 export GOFLAGS=-mod=mod GOPROXY=off GOSUMDB=off GOTOOLCHAIN=local CGO_ENABLED=0
-V=/verif; F="${1:-}"
+V=/verif; F="${1:-}"; JOBS="${JOBS:-1}"
 [ -x $V/bin/govc ] || (cd $V/govc && go build -o $V/bin/govc .) || exit 2
-S=$(mktemp -d /var/tmp/govc-selftest-XXXXXX); trap 'rm -rf "$S"' EXIT
-miss=0; n=0
-run() { # name prop
-  local name="$1" prop="$2"
-  (cd "$S/repo" && go build ./... >/dev/null 2>&1) || { echo "SELFTEST $name: does not compile"; miss=$((miss+1)); return; }
-  mkdir -p "$S/smt" "$S/rep"
+T=$(mktemp -d /var/tmp/govc-selftest-XXXXXX); trap 'rm -rf "$T"' EXIT
+R="$T/results"; : > "$R"
+# entry <name> <prop> <kind> <arg>: kind revert (arg = "commit paths") or patch (arg = patch file)
+entry() {
+  local name="$1" prop="$2" kind="$3" arg="$4" S; S=$(mktemp -d "$T/e-XXXXXX")
+  mkdir -p "$S/repo" "$S/smt" "$S/rep"; rsync -a --exclude .git /repo/ "$S/repo/"
+  if [ "$kind" = revert ]; then
+    local commit="${arg%% *}" paths="${arg#* }"
+    git -C /repo show "$commit" -- $paths ':(exclude)**/zz_contracts_verif.go' > "$S/p.diff"
+    (cd "$S/repo" && patch -R -p1 -s --no-backup-if-mismatch < "$S/p.diff") || { echo "SELFTEST $name: reverse patch does not apply: NOT CAUGHT" >> "$R"; rm -rf "$S"; return; }
+  else
+    (cd "$S/repo" && patch -p1 -s --no-backup-if-mismatch < "$arg") || { echo "SELFTEST $name: patch does not apply: NOT CAUGHT" >> "$R"; rm -rf "$S"; return; }
+  fi
+  (cd "$S/repo" && go build ./... >/dev/null 2>&1) || { echo "SELFTEST $name: does not compile: NOT CAUGHT" >> "$R"; rm -rf "$S"; return; }
+  local out rc
   out=$($V/bin/govc -repo "$S/repo" -spec $V/spec -prop "$prop" -tier quick -noreplay -work "$S/smt" -evidence "$S/ev.json" -replays "$S/rep" -known $V/known_findings.txt 2>&1); rc=$?
-  n=$((n+1))
-  if [ $rc -eq 1 ]; then echo "SELFTEST $name [$prop]: caught :: $(echo "$out" | grep -m1 '^FAILED' | cut -c1-160)"
-  else echo "SELFTEST $name [$prop]: NOT CAUGHT (exit $rc)"; miss=$((miss+1)); fi
-  rm -rf "$S/smt" "$S/rep"
+  if [ $rc -eq 1 ]; then echo "SELFTEST $name [$prop]: caught :: $(echo "$out" | grep -m1 '^FAILED' | cut -c1-160)" >> "$R"
+  else echo "SELFTEST $name [$prop]: NOT CAUGHT (exit $rc)" >> "$R"; fi
+  tail -1 "$R"
+  rm -rf "$S"
 }
-fresh() { rm -rf "$S/repo"; mkdir -p "$S/repo"; rsync -a --exclude .git /repo/ "$S/repo/"; }
+throttle() { while [ "$(jobs -rp | wc -l)" -ge "$JOBS" ]; do sleep 1; done; }
 while IFS=$'\t' read -r prop commit paths; do
   case "$prop" in \#*|"") continue;; esac
   name="revert-$commit"; [ -n "$F" ] && [[ "$name $prop" != *"$F"* ]] && continue
-  fresh
-  git -C /repo show "$commit" -- $paths ':(exclude)**/zz_contracts_verif.go' > "$S/p.diff"
-  (cd "$S/repo" && patch -R -p1 -s --no-backup-if-mismatch < "$S/p.diff") || { echo "SELFTEST $name: reverse patch does not apply"; miss=$((miss+1)); continue; }
-  run "$name" "$prop"
+  throttle; entry "$name" "$prop" revert "$commit $paths" &
 done < $V/selftest/reverts.tsv
 for d in $V/seeded/*/; do
   [ -f "$d/patch.diff" ] && [ -f "$d/meta.json" ] || continue
   name="seeded-$(basename $d)"
   for prop in $(python3 -c "import json,sys; print(' '.join(json.load(open('$d/meta.json')).get('caught_by',[])))"); do
     [ -n "$F" ] && [[ "$name $prop" != *"$F"* ]] && continue
-    fresh
-    (cd "$S/repo" && patch -p1 -s --no-backup-if-mismatch < "$d/patch.diff") || { echo "SELFTEST $name: patch does not apply"; miss=$((miss+1)); continue; }
-    run "$name" "$prop"
+    throttle; entry "$name" "$prop" patch "$d/patch.diff" &
   done
 done
+wait
 # a false lemma must not be provable
 if [ -z "$F" ] || [[ "lemma" == *"$F"* ]]; then
-  mkdir -p "$S/spec"; cp $V/spec/*.spec "$S/spec/"
+  S="$T/lemma"; mkdir -p "$S/spec" "$S/repo"; cp $V/spec/*.spec "$S/spec/"; rsync -a --exclude .git /repo/ "$S/repo/"
   echo 'lemma selftest_false(m, w, s) by s [cnthi(m, w, s)]: 0 <= s ==> cnthi(m, w, s) < s' >> "$S/spec/msm.spec"
-  fresh
-  if $V/bin/govc -repo "$S/repo" -spec "$S/spec" -lemmas -timeout 5 2>&1 | grep "selftest_false" | grep -q "unsat"; then echo "SELFTEST false-lemma: NOT CAUGHT"; miss=$((miss+1)); else echo "SELFTEST false-lemma: caught (not provable)"; fi
+  echo 'lemma selftest_false2(A: (Array Int Int), o, n, lo) by n [AscB(A, o, n, lo)]: forall(i, 0, n - 1, A[o+i] < A[o+i+1]) && (n >= 1 ==> A[o] >= lo && A[o+n-1] <= lo + n) ==> forall(j, 0, n, A[o+j] == lo + j)' >> "$S/spec/seq.spec"
+  lo=$($V/bin/govc -repo "$S/repo" -spec "$S/spec" -lemmas -timeout 5 2>&1)
+  for l in selftest_false selftest_false2; do
+    if echo "$lo" | grep "$l/" | grep -q "unsat"; then echo "SELFTEST false-lemma $l: NOT CAUGHT" | tee -a "$R"; else echo "SELFTEST false-lemma $l: caught (not provable)" | tee -a "$R"; fi
+  done
 fi
+n=$(grep -c . "$R"); miss=$(grep -c "NOT CAUGHT" "$R")
 echo "selftest: $n changes run, $miss not caught"
 [ $miss -eq 0 ]
